@@ -22,6 +22,10 @@ type BoundaryCase struct {
 	OnlyK int `json:"only_k"`
 	// EOFWith: the transport returns its last bytes together with io.EOF.
 	EOFWith bool `json:"eof_with,omitempty"`
+	// S2 (client): a second connection is dialed - with this stream glued to
+	// its 101 - after the first Dial returned and before the first connection
+	// is read; each must deliver its own messages.
+	S2 *Stream `json:"stream2,omitempty"`
 }
 
 func genBoundaryCase(t *rapid.T) BoundaryCase {
@@ -41,6 +45,10 @@ func genBoundaryCase(t *rapid.T) BoundaryCase {
 		if c.Reads[i].Op == "join" {
 			c.Reads[i] = RStep{Op: "readmessage", Abandon: -1}
 		}
+	}
+	if !c.R.Server && rapid.Bool().Draw(t, "second_dial") {
+		s2 := genStream(t, SGenOpts{MaxMsgs: 2, Compression: c.R.Compress, R: c.R.ReadBuf, MaxLen: maxLen})
+		c.S2 = &s2
 	}
 	c.Rest = genChunks(t, "rest", 300)
 	c.EOFWith = rapid.Bool().Draw(t, "eof_with_last_bytes")
@@ -156,8 +164,37 @@ func checkC17(c BoundaryCase, o *Obs) error {
 			o.Evals(1)
 		}
 		first = false
+		var conn2 *websocket.Conn
+		var model2 *Model
+		if c.S2 != nil {
+			model2 = BuildStream(*c.S2, false, c.R.Compress)
+			tr2 := xport.NewScriptConn(model2.Wire, nil)
+			tr2.NoLog = true
+			r2 := &responder{compress: c.R.Compress}
+			tr2.OnWrite = r2.onWrite
+			var err2 error
+			conn2, err2 = dialOver(c.R, tr2)
+			if err2 != nil {
+				return fmt.Errorf("client split %d: second Dial failed: %v", k, err2)
+			}
+		}
 		if err := judge(conn, k, "client"); err != nil {
+			if conn2 != nil {
+				err = fmt.Errorf("%w (another connection was dialed before this one was read)", err)
+			}
 			return fmt.Errorf("client, ReadBufferSize %d, first transport read returns %d bytes of (101 response of %d bytes + %d bytes of frames): %w", c.R.ReadBuf, k, respLen, len(model.Wire), err)
+		}
+		if conn2 != nil {
+			lens2 := make([]int, len(model2.Msgs))
+			for i, m := range model2.Msgs {
+				lens2[i] = len(m.Payload)
+			}
+			rt := RunRead(conn2, nil, len(model2.Msgs)+1, lens2, 0)
+			n, err := compareRead(model2.Msgs, rt, nil)
+			if err != nil || n != len(model2.Msgs) {
+				return fmt.Errorf("client split %d: the second connection (dialed while the first still had glued frames pending) delivered %d of %d messages: %v / %v", k, n, len(model2.Msgs), err, rt.Final)
+			}
+			o.Class("client_two_dials")
 		}
 		o.Class("client_split")
 		if k > respLen && k < respLen+len(model.Wire) {
